@@ -157,7 +157,13 @@ def verify(body, inputs_of=None, replay=None, check_side=True, timeout_ms=30000,
                                 model[nm] = "<%s>" % e
                     elif isinstance(info, dict):
                         model = info
-                    failures.append({"goal": gl.label, "model": model, "decisions": list(c.decisions)})
+                    fl = {"goal": gl.label, "model": model, "decisions": list(c.decisions)}
+                    if getattr(info, "numeric", False):
+                        fl["model_kind"] = ("point found by exact/60-digit evaluation of the path condition and the goal at random "
+                                            "rationals (the nonlinear solver gave up); true-function semantics for sqrt/exp/log/cos/sin")
+                        if not model:
+                            fl["model"] = info.as_dict()
+                    failures.append(fl)
                 else:
                     unknowns.append({"goal": gl.label})
         finally:
